@@ -39,6 +39,8 @@ Judge_resolve(c) ==
                    IF "named" \notin DOMAIN c THEN Cl("C08.value.named_options", "skip")
                    ELSE Tri("C08.value.named_options", /\ c.named.ok /\ VEq(StripPairs(c.named.v), x.v)
                                                        /\ c.recname.ok /\ VEq(StripPairs(c.recname.v), x.v)),
-                   IF c.equal THEN Tri("S.identity", plain.st = "ok" /\ VEq(plain.v, x.v)) ELSE Cl("S.identity", "skip"),
+                   \* (two named types with one simple name: matching is by unqualified name, the identity is not to be had)
+                   IF c.equal /\ ~(\E a, b \in DOMAIN W.st.names : a # b /\ Unqual(a) = Unqual(b))
+                   THEN Tri("S.identity", plain.st = "ok" /\ VEq(plain.v, x.v)) ELSE Cl("S.identity", "skip"),
                    Tri("S.alignment", x.p = Len(c.bytes) + 1) >>
 =============================================================================
